@@ -402,7 +402,7 @@ func (cl *cloner) emit(blk *ir.Block, old interface{}) value.Value {
 	}
 	if nm, ok := old.(value.Named); ok {
 		if nn, ok := made.(value.Named); ok && !isUnnamed(old) {
-			nn.SetName(nm.Name())
+			nn.SetName(c03rawName(nm))
 		}
 	}
 	if ov, ok := old.(value.Value); ok {
@@ -436,11 +436,7 @@ func c03clone(m *ir.Module, used map[string]bool) *ir.Module {
 		if x.IsUnnamed() {
 			return ""
 		}
-		s := x.Name()
-		if len(s) >= 2 && s[0] == '"' && s[len(s)-1] == '"' {
-			s = s[1 : len(s)-1] // Name() quotes numeric names
-		}
-		return s
+		return c03rawName(x)
 	}
 	// pass 1: shells of all global-like values.
 	for _, g := range m.Globals {
@@ -1195,4 +1191,19 @@ func replayC03(c *fw.Check, path string) {
 	}
 	c.Case("a", "a")
 	c.Case("b", "b")
+}
+
+// c03rawName reads the name of a named value from its LocalName / GlobalName field: Name() returns
+// numeric names in quoted form, which is not what SetName or the New* constructors take.
+func c03rawName(x interface{}) string {
+	v := reflect.ValueOf(x)
+	if v.Kind() == reflect.Ptr {
+		v = v.Elem()
+	}
+	for _, fn := range []string{"LocalName", "GlobalName"} {
+		if f := v.FieldByName(fn); f.IsValid() && f.Kind() == reflect.String {
+			return f.String()
+		}
+	}
+	panic(fmt.Sprintf("c03rawName: %T has no name field", x))
 }
